@@ -46,7 +46,8 @@ MANIFEST = dict(
               "structural induction through C07/C09/C10) + differential correspondence check with exhaustive small scopes",
 )
 PROP_FILES = ["HtmlVerif/Props/C11.lean", "HtmlVerif/Props/C11TextDoc.lean", "HtmlVerif/Props/ConstsDoc.lean"]
-PROP_FILES.append("HtmlVerif/Props/SrcC11.lean")   # source tie: _gen_html_tag_tree, _hoist_head_content, Tag.insert/extend/append, TagAttrDict.__init__
+PROP_FILES.append("HtmlVerif/Props/SrcRenderC11.lean")   # the renderer tie restated on the embedding of tagify / get_dependencies
+PROP_FILES.append("HtmlVerif/Props/SrcC11.lean")   # source tie: _gen_html_tag_tree, _hoist_head_content, render, __init__, append, Tag.render/insert/extend/append, TagAttrDict.__init__
 
 LPS = [None, "", "lib", "a/b", "a/b/"]
 KWS = [
